@@ -115,6 +115,32 @@ fn run() -> i32 {
     let _ = exercise!(NormalWithLongChecksum, 60);
     let _ = exercise!(Long, 80);
     let _ = exercise!(LongWithLongChecksum, 100);
+    // the "easy" functions that need neither std nor alloc
+    #[cfg(feature = "t-easy-functions")]
+    {
+        match tlsh::hash_buf(LOREM) {
+            Ok(h) => {
+                let mut t = [0u8; Normal::LEN_IN_STR];
+                if h.store_into_str_bytes(&mut t, HexStringPrefix::WithVersion).is_err() || t != *EXPECTED_NORMAL {
+                    return 130;
+                }
+            }
+            Err(_) => return 131,
+        }
+        if tlsh::hash_buf_for::<Short>(b"Hello, World!").is_err() {
+            return 132;
+        }
+        match tlsh::compare(
+            "T12AD5BE86FFE41D17CC268876A9AE472077B2B0032716DBAF1849A7647DDB7C0DF16488",
+            "T1EDD5BE96FFE41D1BCC268C7699AE4720B7B2A0032716DBAF1848A7647DD77C0DF16488",
+        ) {
+            Ok(9) => {}
+            _ => return 133,
+        }
+        if tlsh::compare_with::<Short>("T140D5F17F44F8AB007AE2AC46E515DC", "TNULL").is_ok() {
+            return 134;
+        }
+    }
     // length API
     match tlsh::length::FuzzyHashLengthEncoding::new(4224281216) {
         Some(c) if c.value() == 169 => {}
